@@ -82,6 +82,9 @@ type PathOpts struct {
 	// Inline lists callee full names whose bodies are entered (one level) so
 	// that their branches and returns appear in the caller's table.
 	Inline map[string]bool
+	// NoInline lists callee full names that stay opaque calls even when they
+	// were introduced after the reference tree.
+	NoInline map[string]bool
 }
 
 type pstate struct {
@@ -311,9 +314,12 @@ func inlinable(callee, root *ssa.Function, opts PathOpts) bool {
 	if callee == root || len(callee.Blocks) == 0 || len(callee.Blocks) > 60 {
 		return false
 	}
-	name := funcName(callee)
+	name := funcName(callee) // the reference name when callee merely renames a reference function
 	if opts.Inline[name] {
 		return true
+	}
+	if opts.NoInline[name] {
+		return false
 	}
 	if callee.Pkg == nil || !strings.HasPrefix(callee.Pkg.Pkg.Path(), Mod) {
 		return false
@@ -333,6 +339,10 @@ func (s *pstate) known(atom string) (bool, bool) {
 			return a.Val, true
 		}
 	}
+	// constructors of errors never return nil
+	if l, c, ok := splitEq(atom); ok && c == "nil" && nonNilConstructor(l) {
+		return false, true
+	}
 	// x == c2 is false when x == c1 holds (c1 != c2, both constants)
 	if l, c, ok := splitEq(atom); ok {
 		for _, a := range s.atoms {
@@ -345,6 +355,26 @@ func (s *pstate) known(atom string) (bool, bool) {
 		}
 	}
 	return false, false
+}
+
+// nonNilConstructor: the term is a call of a standard error constructor (gRPC status errors with a
+// non-OK code included).
+func nonNilConstructor(t string) bool {
+	for _, p := range []string{"errors.New(", "fmt.Errorf("} {
+		if strings.HasPrefix(t, p) {
+			return true
+		}
+	}
+	for _, p := range []string{"google.golang.org/grpc/status.Error(", "google.golang.org/grpc/status.Errorf("} {
+		if strings.HasPrefix(t, p) {
+			code := t[len(p):]
+			if i := strings.IndexAny(code, ",)"); i > 0 {
+				code = code[:i]
+				return code != "0" && code[0] >= '0' && code[0] <= '9'
+			}
+		}
+	}
+	return false
 }
 
 // splitEq splits "(lhs == const)" atoms.
@@ -533,7 +563,8 @@ func (s *pstate) callTerm(c *ssa.CallCommon) string {
 func funcName(f *ssa.Function) string {
 	if f.Object() != nil {
 		if fo, ok := f.Object().(*types.Func); ok {
-			return strings.ReplaceAll(fo.FullName(), Mod+"/", "")
+			name := strings.ReplaceAll(fo.FullName(), Mod+"/", "")
+			return canonFuncName(fo, name)
 		}
 	}
 	if f.Parent() != nil {
@@ -559,7 +590,11 @@ func (s *pstate) term(v ssa.Value) string {
 		return "&free:" + canonFreeVar(x, 0)
 	case *ssa.Global:
 		if x.Pkg != nil {
-			return "&" + strings.ReplaceAll(x.Pkg.Pkg.Path(), Mod+"/", "") + "." + x.Name()
+			name := x.Name()
+			if v, ok := x.Object().(*types.Var); ok {
+				name = canonGlobal(x.Pkg.Pkg, name, v.Type())
+			}
+			return "&" + strings.ReplaceAll(x.Pkg.Pkg.Path(), Mod+"/", "") + "." + name
 		}
 		return "&" + x.Name()
 	case *ssa.Function:
@@ -711,14 +746,16 @@ func fieldName(ptrType types.Type, i int) string {
 		t = p.Elem().Underlying()
 	}
 	if st, ok := t.(*types.Struct); ok && i < st.NumFields() {
-		return st.Field(i).Name()
+		n, _ := namedOf(ptrType)
+		return canonField(n, st, i)
 	}
 	return fmt.Sprintf("f%d", i)
 }
 
 func fieldNameStruct(t types.Type, i int) string {
 	if st, ok := t.Underlying().(*types.Struct); ok && i < st.NumFields() {
-		return st.Field(i).Name()
+		n, _ := t.(*types.Named)
+		return canonField(n, st, i)
 	}
 	return fmt.Sprintf("f%d", i)
 }
